@@ -80,6 +80,7 @@ func loadProgram(repo string, goarch string) (*Program, error) {
 		p.enumerate(sp)
 	}
 	sort.Slice(p.Funcs, func(i, j int) bool { return p.FuncName(p.Funcs[i]) < p.FuncName(p.Funcs[j]) })
+	resolveFuncRoles(p)
 	resolveRoles(p)
 	return p, nil
 }
